@@ -256,7 +256,7 @@ class AIPTW:
                           "model", UserWarning)
 
         self._miss_model = self._missing_indicator + ' ~ ' + model
-        fitmodel = propensity_score(self.df, self._miss_model, print_results=print_results)
+        fitmodel = propensity_score(self.df, self._miss_model, weights=self._weight_, print_results=print_results)
 
         if custom_model is None:  # Logistic Regression model for predictions
             self._miss_model_custom = False
